@@ -195,7 +195,7 @@ TrReadHdr ==
                        <<"C10.roundtrip", (wrathSrv /\ e.res.kind = "ok" /\ hout'.kind = "ok") => SentSrv(e, e.res.header)>>,
                        <<"C10.readResult", wrathSrv => e.res.kind = hout'.kind>>,
                        <<"C10.consumedExactly", (wrathSrv /\ hout'.kind = "ok") =>
-                            e.unread = ScriptBytes(e.script) - (IF hout'.header.size > 32767 THEN 5 ELSE 4)>>,
+                            e.unread = ScriptBytes(e.script) - hout'.used>>,
                        << p \o ".bytes", (e.res.kind = "ok" /\ hout'.kind = "ok") => e.res.header = hout'.header>>,
                        << p \o ".state", StOK(half'[e.h], e.st)>> >>,
                     {"ReadHdr", "ReadHdr." \o hf.exp \o "." \o e.kind, "via." \o e.via}
@@ -223,6 +223,19 @@ TrWriteHdr ==
                        << p \o ".state", StOK(half'[e.h], e.st)>> >>,
                     {"WriteHdr", "WriteHdr." \o hf.exp \o "." \o e.kind, "via." \o e.via}
                     \cup (IF hout'.kind = "err" THEN {"WriteHdr.failed", "WriteHdr.failed." \o hout'.io} ELSE {"WriteHdr.ok"}))
+
+\* the public from_array parsers (beyond the listed properties: tags EXT.*)
+TrParseHdr ==
+    /\ IsEv("ParseHdr")
+    /\ LET e == E
+           b4 == SubSeq(e.bytes, 1, 4)
+           b5 == SubSeq(e.bytes, 1, 5) IN
+       /\ UNCHANGED tvars
+       /\ DonePure(<< <<"EXT.parseServer", [size |-> e.server.size, opcode |-> e.server.opcode] = ParseServer(b4)>>,
+                      <<"EXT.parseClient", [size |-> e.client.size, opcode |-> e.client.opcode] = ParseClient(e.bytes)>>,
+                      <<"EXT.parseSmall", [size |-> e.small.size, opcode |-> e.small.opcode] = DecodeSmall(b4)>>,
+                      <<"EXT.parseLarge", [size |-> e.large.size, opcode |-> e.large.opcode] = DecodeLarge(b5)>> >>,
+                   {"ParseHdr"})
 
 TrSplit ==
     /\ IsEv("Split")
@@ -287,7 +300,7 @@ Next ==
     \/ TrReset \/ SkipBad(tvars)
     \/ TrWorldClient \/ TrWorldServer \/ TrCall \/ TrEncHdr \/ TrDecHdr
     \/ TrWrathAttempt \/ TrWrathComplete \/ TrReadHdr \/ TrWriteHdr
-    \/ TrSplit \/ TrUnsplit \/ TrCloneHalf \/ TrDropHalf \/ TrStateSweep \/ TrSizeSweep
+    \/ TrParseHdr \/ TrSplit \/ TrUnsplit \/ TrCloneHalf \/ TrDropHalf \/ TrStateSweep \/ TrSizeSweep
 
 Spec == Init /\ [][Next]_vars
 
